@@ -1,4 +1,4 @@
-import Mustache.Proofs.RowsLive
+import Mustache.Proofs.RowsLive2
 import Mustache.Proofs.RowsCheck
 import Mustache.Proofs.RowsPackInv
 import Mustache.Driver.World
@@ -490,6 +490,30 @@ theorem liveInv_destroyNow' (info : CompId → CompInfo) {w : WM} (h : RowInv w)
 
 example : FreeHeadNot s4 e1.id := by intro h; exact absurd (by decide) h
 
+theorem liveInv_sassign' (info : CompId → CompInfo) {w : WM} (h : RowInv w) (hl : LiveInv w) (e : Handle)
+    (sid value : Nat) (hv : w.isValid e = true) : LiveInv (w.sassign info e sid value).1 := by
+  rcases hl.live_in e hv with ⟨ai, i, hrow⟩
+  exact (sassign_outcome info h.rows e sid value hv (located_of_row h.rows hrow)).liveInv h.rows hl
+
+theorem liveInv_sremove' (info : CompId → CompInfo) {w : WM} (h : RowInv w) (hl : LiveInv w) (e : Handle)
+    (sid : Nat) : LiveInv (w.sremove info e sid).1 := by
+  by_cases hv : w.isValid e = true
+  · rcases hl.live_in e hv with ⟨ai, i, hrow⟩
+    exact (sremove_outcome info h.rows e sid hv (located_of_row h.rows hrow)).liveInv h.rows hl
+  · simp only [Bool.not_eq_true] at hv
+    have : w.sremove info e sid = (w, false, []) := by simp [WM.sremove, hv]
+    rw [this]; exact hl
+
+theorem liveInv_buildUpdate' (info : CompId → CompInfo) {w : WM} (h : RowInv w) (hl : LiveInv w) (e : Handle)
+    (adds : List (CompId × Option Nat)) (rems : Mask) (hv : w.isValid e = true) :
+    LiveInv (w.buildUpdateU info e adds rems).1 := by
+  rcases hl.live_in e hv with ⟨ai, i, hrow⟩
+  exact (buildUpdateU_outcome info h.rows e adds rems hv (located_of_row h.rows hrow)).liveInv h.rows hl
+
+theorem liveInv_buildNew' (info : CompId → CompInfo) {w : WM} (h : RowInv w) (hl : LiveInv w) (ha : AllocOK w)
+    (adds : List (CompId × Option Nat)) : LiveInv (w.buildNewU info adds).1 :=
+  liveInv_buildNewU info h.rows hl ha adds
+
 /-! ## the deferred path -/
 
 /-- `applyCommandPack`: any pack — creation of a reserved handle, or commands on an existing one,
@@ -539,6 +563,42 @@ example : ((s4locked.unlock cat).1.arch 2).rows.map (·.ent.id) = [3] ∧
     (s4locked.unlock cat).1.getComp e1 1 = some (some 5) ∧
     (s4locked.unlock cat).1.getComp e3 2 = some (some 33) := by decide
 
+/-! ## the id-table hypotheses in terms of the C01 invariant -/
+
+/-- `AllocOK` follows from: rows = live handles (`LiveInv`), `locations_` covers `entities_`, fewer
+slots than the null id, and C01's `freelist_wf` fact that a non-empty free list starts at a table slot
+which does not store its own id -/
+theorem allocOK_from_c01 {w : WM} (hl : LiveInv w) (hcov : w.slots.length ≤ w.locs.length)
+    (hsmall : w.slots.length < nullId) (hhead : FreeHeadFree w) : AllocOK w :=
+  allocOK_of_table hl hcov hsmall hhead
+
+theorem freeHeadNot_from_c01 {w : WM} (hhead : FreeHeadFree w) {e : Handle} (hv : w.isValid e = true) :
+    FreeHeadNot w e.id := freeHeadNot_of_table hhead hv
+
+theorem s4_live : LiveInv s4 := by
+  constructor
+  · intro e hv
+    rcases isValid_slot hv with ⟨s, hs, hidf, hver⟩
+    have hw : e.world = 0 := by
+      have := hv; unfold WM.isValid at this
+      simp only [Bool.and_eq_true, beq_iff_eq] at this
+      exact this.1.2
+    have hlt : e.id < 4 := (List.getElem?_eq_some_iff.mp hs).1
+    have hcase : e.id = 0 ∨ e.id = 1 ∨ e.id = 2 ∨ e.id = 3 := by omega
+    have hver0 : e.ver = 0 := by
+      rcases hcase with h | h | h | h <;> rw [h] at hs <;> (cases hs; exact hver.symm)
+    have he : e = ⟨e.id, 0, 0⟩ := by cases e; simp_all
+    rcases hcase with h | h | h | h <;> rw [h] at he <;> rw [he]
+    · exact ⟨0, 0, inRowAt_of_check (by decide)⟩
+    · exact ⟨2, 0, inRowAt_of_check (by decide)⟩
+    · exact ⟨2, 1, inRowAt_of_check (by decide)⟩
+    · exact ⟨2, 2, inRowAt_of_check (by decide)⟩
+  · intro ai i r hr
+    exact allRows_sound (w := s4) (p := fun _ _ r => s4.isValid r.ent) (by decide) hr
+
+example : FreeHeadFree s4 ∧ s4.slots.length ≤ s4.locs.length ∧ s4.slots.length < nullId :=
+  ⟨fun h => absurd (by decide) h, by decide, by decide⟩
+
 /-! ## what is left -/
 
 /-- `PacksOK` discharged from the invariants instead of assumed: needs `LiveInv` (and the C01 facts
@@ -547,9 +607,10 @@ def liveInv_flush_statement : Prop :=
   ∀ (info : CompId → CompInfo) (w : WM) (pack : List Cmd), RowInv w → LiveInv w → PackOK w pack →
     LiveInv (w.applyPack info pack).1
 
-/-- `LiveInv` through the builder, shared-component and `clearArchetype` operations -/
-def liveInv_builders_statement : Prop :=
-  ∀ (info : CompId → CompInfo) (w : WM) (e : Handle) (adds : List (CompId × Option Nat)) (rems : Mask),
-    RowInv w → LiveInv w → w.isValid e = true → LiveInv (w.buildUpdateU info e adds rems).1
+/-- `LiveInv` through `clearArchetype` and `update` (each released id needs the C01 free-list fact at
+the moment it is released) -/
+def liveInv_clear_update_statement : Prop :=
+  ∀ (info : CompId → CompInfo) (w : WM) (ai : Nat), RowInv w → LiveInv w → FreeHeadFree w →
+    LiveInv (w.clearArch info ai).1 ∧ LiveInv (w.update info).1
 
 end Mustache.Props.C02
